@@ -329,7 +329,7 @@ def run_mc(work, v, module, tier, timeout=1500):
     v.add_mc(vf.tlc_mc(work, module, cfg, workers=8, timeout=timeout), "mc:" + module)
 
 
-CLI_DEFAULT = ((5, 400, 50), (1, 20000, 1500))
+CLI_DEFAULT = ((2, 1200, 60), (1, 20000, 1500))
 
 
 def heap_pipeline(profile, quick, thorough, mc=None, cli=CLI_DEFAULT):
